@@ -1,4 +1,5 @@
 //! Independent reference models. Nothing in here calls the function it is the oracle for.
+pub mod controller;
 pub mod hex;
 pub mod page;
 pub mod table;
